@@ -161,7 +161,7 @@ fn build_doc(rng: &mut Rng, corpus: &Corpus) -> String {
 pub fn worker(ctx: &mut Ctx) {
     let dict: Arc<FstDictionary> = FstDictionary::curated();
     let corpus = load_corpus();
-    let n = ctx.share(2_500, 300_000);
+    let n = ctx.share(2_500, 150_000);
     let mut rng = ctx.rng("c14");
     let mut lg = LintGroup::new_curated(dict.clone(), Dialect::American);
     for k in 0..n {
